@@ -4,6 +4,7 @@ package main
 // every non-trivial intermediate is named by a define-fun in the owning Ctx so VCs stay linear in size.
 
 import (
+	"strconv"
 	"fmt"
 	"math/big"
 	"strings"
@@ -143,6 +144,21 @@ func BoolConst(b bool) Term {
 }
 
 func App(sort Sort, op string, args ...Term) Term {
+	// field selector applied to a constructor application: the field itself (selectors are named <S>-<i>-<field>,
+	// constructors mk-<S>)
+	if len(args) == 1 && strings.HasPrefix(op, "S_") && strings.HasPrefix(args[0].S, "(mk-S_") {
+		if i := strings.Index(op, "-"); i > 0 {
+			sname := op[:i]
+			rest := op[i+1:]
+			if j := strings.Index(rest, "-"); j > 0 && strings.HasPrefix(args[0].S, "(mk-"+sname+" ") {
+				if fi, err := strconv.Atoi(rest[:j]); err == nil {
+					if parts := splitArgs(args[0].S); fi+1 < len(parts) {
+						return atomTerm(parts[fi+1], sort)
+					}
+				}
+			}
+		}
+	}
 	var sb strings.Builder
 	sb.WriteByte('(')
 	sb.WriteString(op)
@@ -284,6 +300,12 @@ func atomTerm(s string, srt Sort) Term {
 		if v, ok := new(big.Int).SetString(s[2:], 2); ok {
 			return BVConst(v, len(s)-2)
 		}
+	}
+	if s == "true" && srt == SBool {
+		return TTrue
+	}
+	if s == "false" && srt == SBool {
+		return TFalse
 	}
 	return Term{S: s, Sort: srt}
 }
